@@ -280,7 +280,7 @@ PROPS = {
         "technique": 'stuttering Checkpoint action + two-run bitwise replay + serde twin in validated traces',
         "title": "a serde round trip at any point is invisible",
         "mc": [MC_MERGE],
-        "replay": [gen_h("hist", 2, depth=("3", "4")), gen_h("hist", 1), gen_q("big", "E0,E5,E16", maxlen=("7", "8")), gen_q("small", "E0,E16"), gen_mm("hist", depth=("3", "4")), gen_pair("Weighted", "hist", "E0:W0,E5:W2,E16:W4", depth=("4", "4")), gen_pair("Covariance", "hist", "E0:E0,E3:E5,E16:E16", depth=("3", "4")), gen_hist(ALLM, "E0,E3,E5,E16", depth=("5", "6"), slots=("{1}", "{1}")), gen_hist(ALLM, "E0,E5,E16")],
+        "replay": [gen_h("hist", 2, depth=("3", "4")), gen_h("hist", 1), H_HIST[3], gen_q("big", "E0,E5,E16", maxlen=("7", "8")), gen_q("small", "E0,E16"), gen_mm("hist", depth=("3", "4")), gen_pair("Weighted", "hist", "E0:W0,E5:W2,E16:W4", depth=("4", "4")), gen_pair("Covariance", "hist", "E0:E0,E3:E5,E16:E16", depth=("3", "4")), gen_hist(ALLM, "E0,E3,E5,E16", depth=("5", "6"), slots=("{1}", "{1}")), gen_hist(ALLM, "E0,E5,E16")],
         "trace": [TR_Q, TR_MM],
         "direct": [{"cmd": "direct", "family": "histserde", "args": {"reps": ("20", "200")}}, {"cmd": "direct", "family": "serdelong", "args": {"n": ("300", "3000")}}],
         "rule": "every history with checkpoints at every position; two real executions (with / without the JSON round trip) "
